@@ -472,11 +472,26 @@ def replay(ctx, data):
     print("replay:", "property holds on this input" if ok else ctx.failures[-1])
     return 0 if ok else 1
 
-LEVEL_TEXT = ("Proof (Coq): for every pattern and name, the compiled matcher of the model accepts exactly the documented "
-              "wildcard language (C19_wildcard_correct, no premise); the nested filter loops equal filtering the flattened "
-              "entry list on the four coordinates in inventory order (C19_filter_exact); inv-link outcome by match count "
-              "(C19_inv_link); filtering the Sphinx in-memory representation of well-formed inventories gives the same entries in the same order (C19_native_equals_sphinx, with the refuted variant showing the premise is needed). The model is tied to inventory.py by differential correspondence (exhaustive short "
-              "(pattern,name) pairs incl. regex metacharacters, generated inventories x filters) on every run.")
-LEVEL_NOTE = ("Trusted: Coq kernel; hand transcription of _create_regex/filter_inventories into coq/Inv/WildModel.v (checked by "
-              "correspondence, not proved); Python re (re.escape/'.*'/DOTALL) as oracle; native-vs-Sphinx-representation equality and "
-              "the inv: link rendering through docutils is checked on the implementation by the search oracle only.")
+LEVEL_TEXT = ("Proof (Coq 8.16, 14 theorems, all closed under the global context): for every pattern and name the matcher accepts "
+              "exactly the documented wildcard language - '*' any run (newlines included), '\\*' a literal star, any other character "
+              "itself (C19_wildcard_correct, no premise); the nested filter loops equal filtering the flattened entry list on the four "
+              "coordinates in inventory order (C19_filter_exact); the Sphinx in-memory representation of well-formed inventories "
+              "filters to the same entries in the same order (C19_native_equals_sphinx; the premise is shown necessary by "
+              "C19_sphinx_text_refuted); an inv: link renders nothing but one iref_missing warning for no match, else the FIRST match with "
+              "one iref_ambiguous warning iff several, refuri = location joined to the base URL, text = explicit text / display text / "
+              "name (C19_inv_link, C19_inv_link_render); inventories are loaded once per document (C19_inventories_loaded_once). "
+              "Tie to the code, checked on every run: (a) _create_regex, match_with_wildcard, filter_inventories, "
+              "filter_sphinx_inventories, filter_string, render_link_inventory and get_inventory_matches are REGENERATED from the source "
+              "statement by statement (gen/py2coq.py, gen/c19_*.py) and proved equal to the models, and every statement above is "
+              "restated on the regenerated code (C19_*_src) - a source edit breaks gen or a refinement proof; (b) differential "
+              "correspondence of the extracted model with the implementation: all (pattern,name) pairs up to length 3/4 over "
+              "'a b * \\ .' and 2/3 over regex metacharacters, random pairs, generated inventories x filter quadruples in both "
+              "representations, single-link documents through the docutils front end with varied base URLs; (c) direct oracle: an "
+              "independent implementation of the documented semantics, brute-force filtering, documents with several inv: links.")
+LEVEL_NOTE = ("Trusted base: Coq kernel (no axioms; coqchk in the thorough tier); the translators gen/py2coq.py + gen/c19_wild.py / "
+              "c19_filters.py / c19_link.py with their domain mappings (re.escape(c) -> PLit c, '.*' -> PStar, "
+              "re.compile(r, re.DOTALL) -> (r, true); dict .items() loops -> list recursion; urlparse and markdown-it's "
+              "normalizeLinkText as Section-variable oracles); Python re (escape / '.*' / DOTALL / fullmatch) as oracle O_re, exercised "
+              "by the correspondence over a metacharacter alphabet; functools.lru_cache; posixpath.join as modelled by C18's pjoin "
+              "(C18_posixpath_join). to_sphinx is regenerated under C18. Two defects were repaired (fix 5ab8487: trailing backslash "
+              "dropped; '*' did not match a newline); no open finding.")
